@@ -779,6 +779,7 @@ def main():
                         rnc.append((m.group(1), v))
     except OSError:
         shape('docs/gir-1.2.rnc not readable')
+    rnc.sort()
 
     node_kinds = []
     for n, h in sorted(handlers.items()):
@@ -906,6 +907,10 @@ def c15CFetchedG : List (Nat × List Nat) := [
 def c15CLiteralsG : List (Nat × List (Nat × Nat × Bool)) := [
   %s]
 
+/-- attribute ↦ [value] of docs/gir-1.2.rnc -/
+def c15RncValuesG : List (Nat × List Nat) := [
+  %s]
+
 end GIVerif.Gen
 ''' % (lean_list([lean_str(s) for s in states]), ',\n  '.join(acc_rows),
        lean_list([lean_str(e) for e in sorted(by_name_passthrough)]),
@@ -929,7 +934,8 @@ end GIVerif.Gen
        ',\n  '.join('(%s, [%s])' % (k, ', '.join(vs)) for k, vs in group_adj(
            [(code(h), code(a)) for h in sorted(fetched) for a in sorted(fetched[h])])),
        ',\n  '.join('(%s, [%s])' % (k, ', '.join(vs)) for k, vs in group_adj(
-           [(code(h), '(%s, %s, %s)' % (code(a), code(l.lower() if c else l), b(c))) for (h, a, l, c) in sorted(literals)])))
+           [(code(h), '(%s, %s, %s)' % (code(a), code(l.lower() if c else l), b(c))) for (h, a, l, c) in sorted(literals)])),
+       ',\n  '.join('(%s, [%s])' % (k, ', '.join(vs)) for k, vs in group_adj([(code(a), code(v)) for a, v in rnc])))
     p, digest, changed = write_if_changed('GirVocabC.lean', text)
     print('gen_girvocab_c: %s sha256=%s changed=%s states=%d accept=%d fetched=%d literals=%d shape=%d'
           % (p, digest[:12], changed, len(states), len(accept), len(fetched_rows), len(lit_rows), len(SHAPE)))
@@ -967,6 +973,7 @@ def c15CShape : List String := [%s]
 def c15CAcceptG : List (Nat × List (Nat × Nat × Bool × Bool × Bool × Nat × Bool)) := []
 def c15CFetchedG : List (Nat × List Nat) := []
 def c15CLiteralsG : List (Nat × List (Nat × Nat × Bool)) := []
+def c15RncValuesG : List (Nat × List Nat) := []
 end GIVerif.Gen
 ''' % (type(e).__name__, lean_str('translator failed: %s: %s' % (type(e).__name__, str(e)[:200])))
         write_if_changed('GirVocabC.lean', text)
